@@ -59,78 +59,94 @@ def new_session(role):
     return sansldap.LDAPClient() if role == CLIENT else sansldap.LDAPServer()
 
 
+def _variant(c) -> int:
+    """Which of the equivalent documented call forms to use: decided by the call's own data (exact replays)."""
+    return len(repr(c)) % 2
+
+
+def _enum(E, x):
+    try:
+        return E(x)
+    except ValueError:
+        return x
+
+
+def _ext_name(name: str, variant: int):
+    """The ExtendedOperations member instead of its OID string (it is a str subclass) in variant 1."""
+    import sansldap
+
+    if variant == 1:
+        for m in sansldap.ExtendedOperations:
+            if m.value == name:
+                return m
+    return name
+
+
+def _kw(pairs, variant):
+    """Keyword arguments; in variant 1 every argument equal to its documented default is left out."""
+    return {k: v for k, (v, dflt) in pairs.items() if not (variant == 1 and v == dflt and type(v) is type(dflt))}
+
+
 def do_call(s, c):
     import sansldap
 
     k = c[0]
+    v = _variant(c)
+    ctl = lambda x: ([msgs.mk_control(y) for y in x] if (x or v == 0) else None)  # noqa: E731  controls=None == []
     if k == C_BIND:
-        return [0, s.bind(msgs.S(c[1]), msgs.mk_cred(c[2]), controls=[msgs.mk_control(x) for x in c[3]])]
+        dn, cred = msgs.S(c[1]), c[2]
+        if v == 1 and cred[0] == 0:
+            # bind_simple(dn, password): None / "" mean anonymous resp. unauthenticated
+            return [0, s.bind_simple(dn or None, msgs.S(cred[1]) or None, controls=ctl(c[3]))]
+        if v == 1 and cred[0] == 1:
+            return [0, s.bind_sasl(msgs.S(cred[1]), dn or None, msgs.unopt(cred[2]), controls=ctl(c[3]))]
+        return [0, s.bind(dn, msgs.mk_cred(cred), controls=ctl(c[3]))]
     if k == C_EXT:
-        return [0, s.extended_request(msgs.S(c[1]), msgs.unopt(c[2]), controls=[msgs.mk_control(x) for x in c[3]])]
+        kw = _kw({"value": (msgs.unopt(c[2]), None), "controls": (ctl(c[3]), None)}, v)
+        return [0, s.extended_request(_ext_name(msgs.S(c[1]), v), **kw)]
     if k == C_SEARCH:
-        return [
-            0,
-            s.search_request(
-                base_object=msgs.S(c[1]),
-                scope=c[2],
-                dereferencing_policy=c[3],
-                size_limit=c[4],
-                time_limit=c[5],
-                types_only=bool(c[6]),
-                filter=msgs.mk_filter(c[7]),
-                attributes=[msgs.S(a) for a in c[8]],
-                controls=[msgs.mk_control(x) for x in c[9]],
-            ),
-        ]
+        base = msgs.S(c[1])
+        flt = msgs.mk_filter(c[7])
+        kw = _kw({
+            "base_object": (base if (base or v == 0) else None, None),
+            "scope": (c[2] if v == 0 else _enum(sansldap.SearchScope, c[2]), sansldap.SearchScope.SUBTREE),
+            "dereferencing_policy": (c[3] if v == 0 else _enum(sansldap.DereferencingPolicy, c[3]), sansldap.DereferencingPolicy.NEVER),
+            "size_limit": (c[4], 0),
+            "time_limit": (c[5], 0),
+            "types_only": (bool(c[6]), False),
+            "filter": (None if (v == 1 and list(c[7]) == [7, b"objectClass"]) else flt, None),
+            "attributes": ([msgs.S(a) for a in c[8]] if (c[8] or v == 0) else None, None),
+            "controls": (ctl(c[9]), None),
+        }, v)
+        return [0, s.search_request(**kw)]
+    SUCCESS = sansldap.LDAPResultCode.SUCCESS
+    txt = lambda b: (msgs.S(b) if (b or v == 0) else None)  # noqa: E731  matched_dn / diagnostics None == ""
     if k == S_BINDRESP:
-        return [
-            0,
-            s.bind_response(
-                c[1],
-                sasl_creds=msgs.unopt(c[2]),
-                result_code=sansldap.LDAPResultCode(c[3]),
-                matched_dn=msgs.S(c[4]),
-                diagnostics_message=msgs.S(c[5]),
-                controls=[msgs.mk_control(x) for x in c[6]],
-            ),
-        ]
+        kw = _kw({"sasl_creds": (msgs.unopt(c[2]), None), "result_code": (sansldap.LDAPResultCode(c[3]), SUCCESS),
+                  "matched_dn": (txt(c[4]), None), "diagnostics_message": (txt(c[5]), None), "controls": (ctl(c[6]), None)}, v)
+        return [0, s.bind_response(c[1], **kw)]
     if k == S_EXTRESP:
         n = msgs.unopt(c[2])
-        return [
-            0,
-            s.extended_response(
-                c[1],
-                name=None if n is None else msgs.S(n),
-                value=msgs.unopt(c[3]),
-                result_code=sansldap.LDAPResultCode(c[4]),
-                matched_dn=msgs.S(c[5]),
-                diagnostics_message=msgs.S(c[6]),
-                controls=[msgs.mk_control(x) for x in c[7]],
-            ),
-        ]
+        kw = _kw({"name": (None if n is None else _ext_name(msgs.S(n), v), None), "value": (msgs.unopt(c[3]), None),
+                  "result_code": (sansldap.LDAPResultCode(c[4]), SUCCESS), "matched_dn": (txt(c[5]), None),
+                  "diagnostics_message": (txt(c[6]), None), "controls": (ctl(c[7]), None)}, v)
+        return [0, s.extended_response(c[1], **kw)]
     if k == S_ENTRY:
         return [
             0,
             s.search_result_entry(
                 c[1],
                 msgs.S(c[2]),
-                [sansldap.PartialAttribute(name=msgs.S(n), values=list(v)) for n, v in c[3]],
-                controls=[msgs.mk_control(x) for x in c[4]],
+                [sansldap.PartialAttribute(name=msgs.S(n), values=list(vals)) for n, vals in c[3]],
+                controls=ctl(c[4]),
             ),
         ]
     if k == S_REF:
-        return [0, s.search_result_reference(c[1], [msgs.S(u) for u in c[2]], controls=[msgs.mk_control(x) for x in c[3]])]
+        return [0, s.search_result_reference(c[1], [msgs.S(u) for u in c[2]], controls=ctl(c[3]))]
     if k == S_DONE:
-        return [
-            0,
-            s.search_result_done(
-                c[1],
-                result_code=sansldap.LDAPResultCode(c[2]),
-                matched_dn=msgs.S(c[3]),
-                diagnostics_message=msgs.S(c[4]),
-                controls=[msgs.mk_control(x) for x in c[5]],
-            ),
-        ]
+        kw = _kw({"result_code": (sansldap.LDAPResultCode(c[2]), SUCCESS), "matched_dn": (txt(c[3]), None),
+                  "diagnostics_message": (txt(c[4]), None), "controls": (ctl(c[5]), None)}, v)
+        return [0, s.search_result_done(c[1], **kw)]
     if k == UNBIND:
         r = s.unbind()
         return [1] if r is None else [6, 99]
